@@ -269,6 +269,147 @@ pub fn check_n(ctx: &Ctx, st: &mut Stats, n: usize, exact: bool, with_rsbdd: boo
     }
 }
 
+/// Board sizes whose complete formula cannot be held (n up to 65535, the largest value the option
+/// accepts: ~300 GB): the generator streams, so the first `limit` bytes are read and the process
+/// is stopped. Every COMPLETE clause of that prefix must be implied by the rules on its own:
+/// `[..] <= 1` over distinct squares of one row / column / diagonal, `[..] = 1` over exactly one
+/// complete row or column, no square index beyond n^2 - 1. Anything else in the prefix (another
+/// encoding) is not judged.
+fn check_prefix(ctx: &Ctx, st: &mut Stats, n: usize, limit: usize) {
+    use std::io::Read;
+    use std::process::{Command, Stdio};
+    st.evals += 1;
+    st.bump("huge_board_sizes_checked_by_prefix");
+    let case = || json!({"kind": "prefix", "n": n, "limit": limit});
+    let mut child = match Command::new(ctx.bin("n_queens_gen")).args(["-n", &n.to_string()]).stdin(Stdio::null()).stdout(Stdio::piped()).stderr(Stdio::piped()).spawn() {
+        Ok(c) => c,
+        Err(e) => {
+            st.inconclusive(format!("cannot start n_queens_gen: {}", e));
+            return;
+        }
+    };
+    let mut buf = vec![0u8; limit];
+    let mut got = 0usize;
+    if let Some(mut so) = child.stdout.take() {
+        while got < limit {
+            match so.read(&mut buf[got..]) {
+                Ok(0) | Err(_) => break,
+                Ok(k) => got += k,
+            }
+        }
+    }
+    let _ = child.kill();
+    let status = child.wait();
+    buf.truncate(got);
+    if got < limit {
+        // the generator stopped by itself before the limit: it must not have failed
+        if let Ok(s) = status {
+            if !s.success() {
+                let mut err = String::new();
+                if let Some(mut se) = child.stderr.take() {
+                    let _ = se.read_to_string(&mut err);
+                }
+                st.violate("c15.run", format!("C15:generator-failed:n={}", n), format!("n_queens_gen -n {} stopped after {} bytes: {} {}", n, got, s, err.lines().take(3).collect::<Vec<_>>().join(" | ")), case());
+                return;
+            }
+        }
+    }
+    let text = String::from_utf8_lossy(&buf).to_string();
+    // cut after the last complete clause
+    let Some(cut) = text.rfind("&\n") else {
+        st.bump("prefix_without_a_complete_clause(not judged)");
+        return;
+    };
+    let body = format!("{} true", &text[..cut + 1]);
+    let Ok(ast) = refsyn::parse_text(&body) else {
+        st.bump("prefix_not_a_conjunction_of_clauses(not judged)");
+        return;
+    };
+    let mut clauses: Vec<&refsyn::Ast> = Vec::new();
+    let mut cur = &ast;
+    loop {
+        match cur {
+            refsyn::Ast::Bin(refsyn::Op::And, l, r) => {
+                // right-nested or left-nested: collect the non-And side
+                if matches!(l.as_ref(), refsyn::Ast::Bin(refsyn::Op::And, ..)) {
+                    clauses.push(r);
+                    cur = l;
+                } else {
+                    clauses.push(l);
+                    cur = r;
+                }
+            }
+            other => {
+                clauses.push(other);
+                break;
+            }
+        }
+    }
+    let mut seen: std::collections::HashSet<Vec<usize>> = std::collections::HashSet::new();
+    let mut judged = 0u64;
+    for c in clauses {
+        let (cmp, items) = match c {
+            refsyn::Ast::True => continue,
+            refsyn::Ast::CountConst(cmp, items, 1) => (*cmp, items),
+            _ => {
+                st.bump("prefix_clause_of_another_shape(not judged)");
+                continue;
+            }
+        };
+        let mut sq: Vec<usize> = Vec::with_capacity(items.len());
+        let mut ok_names = true;
+        for it in items {
+            match it {
+                refsyn::Ast::Var(v) => match v.strip_prefix("v_").and_then(|x| x.parse::<usize>().ok()) {
+                    Some(k) => sq.push(k),
+                    None => ok_names = false,
+                },
+                _ => ok_names = false,
+            }
+        }
+        if !ok_names {
+            st.bump("prefix_clause_of_another_shape(not judged)");
+            continue;
+        }
+        judged += 1;
+        let show: Vec<usize> = sq.iter().take(6).cloned().collect();
+        if let Some(k) = sq.iter().find(|k| **k >= n * n) {
+            st.violate("c15.prefix", format!("C15:square-out-of-range:n={}", n), format!("n = {}: a clause mentions v_{} (the board has squares 0..{}); clause starts {:?}", n, k, n * n - 1, show), case());
+            return;
+        }
+        let mut sorted = sq.clone();
+        sorted.sort();
+        if sorted.windows(2).any(|w| w[0] == w[1]) {
+            st.violate("c15.prefix", format!("C15:square-repeated-in-a-clause:n={}", n), format!("n = {}: a clause of {} entries repeats a square (a repeated entry counts twice: the square can never hold a queen); clause starts {:?}", n, sq.len(), show), case());
+            return;
+        }
+        let (r0, c0) = (sq[0] / n, sq[0] % n);
+        let same_row = sq.iter().all(|k| k / n == r0);
+        let same_col = sq.iter().all(|k| k % n == c0);
+        let same_d1 = sq.iter().all(|k| (k / n) as i64 - (k % n) as i64 == r0 as i64 - c0 as i64);
+        let same_d2 = sq.iter().all(|k| k / n + k % n == r0 + c0);
+        let fine = match cmp {
+            refsyn::Cmp::AtMost => same_row || same_col || same_d1 || same_d2,
+            refsyn::Cmp::Exactly => (same_row || same_col) && sq.len() == n,
+            _ => {
+                st.bump("prefix_clause_of_another_shape(not judged)");
+                continue;
+            }
+        };
+        if !fine {
+            st.violate("c15.prefix", format!("C15:clause-not-implied-by-the-rules:n={}", n), format!("n = {}: clause {:?} over {} squares starting {:?} is neither an at-most-one over squares of one line nor an exactly-one over a complete row / column", n, cmp, sq.len(), show), case());
+            return;
+        }
+        if !seen.insert(sorted) {
+            st.bump("prefix_clause_emitted_twice(statistic)");
+        }
+    }
+    st.add("prefix_clauses_judged", judged);
+    if judged > 0 {
+        st.nt.insert(2_000_000 + n as u64);
+    }
+}
+
 pub fn run(ctx: &Ctx) -> (Stats, Spec) {
     let exact_max = ctx.tier.pick(10usize, 12usize);
     let rsbdd_max = ctx.tier.pick(6usize, 7usize);
@@ -290,9 +431,18 @@ pub fn run(ctx: &Ctx) -> (Stats, Spec) {
         st
     });
     let mut st = crate::report::merge_all(parts);
+    // the corner values of the size option (u16) and sizes whose square count passes 2^31 / 2^32
+    let huge: Vec<usize> = ctx.tier.pick(vec![32_768, 46_341, 65_534, 65_535], vec![4_097, 32_767, 32_768, 46_340, 46_341, 50_000, 65_534, 65_535]);
+    let limit = ctx.tier.pick(6usize << 20, 48usize << 20);
+    let parts = util::par_jobs(huge.len(), |j| {
+        let mut s = Stats::new();
+        check_prefix(ctx, &mut s, huge[j], limit);
+        s
+    });
+    st.merge(crate::report::merge_all(parts));
     st.exhaustive.push(format!("exact model-set equality for every board size n = 1..{}", exact_max));
     let spec = Spec {
-        rule: "every board size n = 1..10 [quick] / 1..12 [thorough]: the real generator's output (stdout, and a file that already exists with longer content) is parsed by the reference grammar, its variable set must be v_0..v_(n^2-1), and ALL its models (three-valued propagation search) are compared as a set with an independent backtracking enumeration; rsbdd -t -ft cross-check for n <= 6 / 7; larger n incl. 255, 256, 257 (16-bit boundary), 316, 317 (six-digit indices), thorough also 999-1001 (seven digits): variable set, attacking and non-attacking square pairs (all pairs when feasible, else sampled with a bias to shared lines), empty rows/columns, a constructed placement and near-misses. distinct = board size (exact) / board size (probed); every board size is a configuration.".into(),
+        rule: "every board size n = 1..10 [quick] / 1..12 [thorough]: the real generator's output (stdout, and a file that already exists with longer content) is parsed by the reference grammar, its variable set must be v_0..v_(n^2-1), and ALL its models (three-valued propagation search) are compared as a set with an independent backtracking enumeration; rsbdd -t -ft cross-check for n <= 6 / 7; larger n incl. 255, 256, 257 (16-bit boundary), 316, 317 (six-digit indices), thorough also 999-1001 (seven digits): variable set, attacking and non-attacking square pairs (all pairs when feasible, else sampled with a bias to shared lines), empty rows/columns, a constructed placement and near-misses; HUGE sizes up to 65535 (the largest value the option accepts; also 32768, 46341 where the square count passes 2^30 / 2^31): the first 6 MiB [quick] / 48 MiB [thorough] of the streamed output are read and every complete clause must be implied by the rules on its own (distinct squares of one line for <= 1, a complete row / column for = 1, indices below n^2). distinct = board size (exact) / board size (probed); every board size is a configuration.".into(),
         assumptions: vec![
             "v_k is read as 'a queen on row k div n, column k mod n'".into(),
             "for n beyond the enumerable bound the model set is only probed, not compared".into(),
@@ -302,6 +452,7 @@ pub fn run(ctx: &Ctx) -> (Stats, Spec) {
             ("rsbdd_cross_checks".into(), 3, "rsbdd cross-check missing".into()),
             ("attacking_pairs_probed".into(), 10_000, "too few attacking pairs probed".into()),
             ("constructed_placements_probed".into(), 5, "no placements probed".into()),
+            ("prefix_clauses_judged".into(), 10, "huge board sizes not exercised".into()),
         ],
     };
     (st, spec)
@@ -309,6 +460,10 @@ pub fn run(ctx: &Ctx) -> (Stats, Spec) {
 
 pub fn replay(ctx: &Ctx, _monitor: &str, case: &Value, st: &mut Stats) {
     let n = case.get("n").and_then(|n| n.as_u64()).unwrap_or(4) as usize;
+    if case.get("kind").and_then(|k| k.as_str()) == Some("prefix") {
+        check_prefix(ctx, st, n, case.get("limit").and_then(|l| l.as_u64()).unwrap_or(6 << 20) as usize);
+        return;
+    }
     let exact = case.get("exact").and_then(|b| b.as_bool()).unwrap_or(n <= 8);
     let rs = case.get("with_rsbdd").and_then(|b| b.as_bool()).unwrap_or(false);
     let probes = case.get("probes").and_then(|p| p.as_u64()).unwrap_or(if n >= 4 { 5_000 } else { 0 });
